@@ -38,7 +38,7 @@ ASSUMPTIONS = [
     '39 000 ft and a wide mass range, the sample table cut at FL300 (cruise level outside the table)',
     'no weather (use_weather=False); builders and performance models are reused across cases inside a worker',
     'positions are compared with a private WGS-84 pyproj Geod (trusted primitive)',
-    'a raise is never a violation of this property (explicit starting masses currently raise TypeError: C17)',
+    'a raise is never a violation of this property; it is classified (refused:<reason> / error:<type>)',
     'phase boundaries are taken from the returned n_climb and n_cruise; n_descent is not used '
     '(the builder reports one less than the number of descent points)',
 ]
@@ -75,7 +75,7 @@ REAL_ROUTES = {'BOSLAX': ('BOS', 'LAX'), 'DENABQ': ('DEN', 'ABQ'), 'LAXBOS': ('L
 # ceilings 41 000 ft (sample) and 39 000 ft (synthetic): ceiling-10 000 (destination + 3 000 ft equals
 # the cruise level), ceiling-3 000 (origin + 3 000 ft reaches the ceiling), the ceiling itself, each +-1 ft.
 ELEV = {
-    'quick': [None, 5355, 13123, 35000, 42000],
+    'quick': [None, 5355, 13123, 35000, 41000, 42000],
     'thorough': [None, -1000, -4000, 5355, 13123, 28999, 29000, 29001, 30999, 31000, 31001, 35000, 35999,
                  36000, 37999, 38000, 39000, 41000, 42000],
 }  # fmt: skip
@@ -384,6 +384,7 @@ def refusal_class(e):
 
 F_HANDOVER = 'C02-handover-negative-index'
 F_INTERP = 'C02-interp-raw-buffers'
+F_ARRIVAL = 'C02-arrival-clamped-to-ceiling'
 CARRIED = ['aircraft_mass', 'fuel_mass', 'ground_distance', 'flight_time', 'latitude', 'longitude']
 BLOCK = 50
 
@@ -465,7 +466,18 @@ def run_case(case):
     findings = mon.check_bookkeeping(obs, spec)
     nc, nz = int(meta['n_climb']), int(meta['n_cruise'])
     hits = handover_signature(pts, nc, nz) if len(pts['flight_time']) else set()
-    vio += _group(findings, lambda f: F_HANDOVER if (f[0] in HANDOVER_KINDS and f[1] in hits) else None)
+    ceiling = spec['ceiling']
+    # arrival level (destination + 3000 ft) at/above the ceiling was replaced by the ceiling itself
+    clamped = spec['d'][2] + mon.AGL_3000 >= ceiling and abs(float(pts['altitude'][-1]) - ceiling) <= mon.ALT_TOL
+
+    def tag(f):
+        if f[0] in HANDOVER_KINDS and f[1] in hits:
+            return F_HANDOVER
+        if f[0] == 'altitude-end' and clamped:
+            return F_ARRIVAL
+        return None
+
+    vio += _group(findings, tag)
 
     # -- resampling (needs a usable time axis)
     t = pts['flight_time']
@@ -499,13 +511,14 @@ def _resample(traj, pts, meta, t):
             continue
         if label == 'mid':
             fs = mon.check_midpoints(t, pts, idx, tm, rp, rn)
-        else:
+        elif label == 'own':
             fs = mon.check_own_times(t, pts, rp, rn)
-            if label == 'own':
-                first_own = rp
-                if _meta_key(rmeta) != _meta_key(meta):
-                    fs.append(('resample-meta', None, f'per-trajectory values changed by resampling: {meta} -> {rmeta}'))
-            elif first_own is not None and any(not np.array_equal(first_own[f], rp[f], equal_nan=True) for f in mon.POINT_FIELDS):
+            first_own = rp
+            if _meta_key(rmeta) != _meta_key(meta):
+                fs.append(('resample-meta', None, f'per-trajectory values changed by resampling: {meta} -> {rmeta}'))
+        else:  # repeated call on the same object: only compared with the first answer
+            fs = []
+            if first_own is not None and any(not np.array_equal(first_own[f], rp[f], equal_nan=True) for f in mon.POINT_FIELDS):
                 fs.append(('resample-own', None, 'a second resampling of the same trajectory at its own times differs from the first'))
 
         def tag(f, rp=rp, times=times):
@@ -535,6 +548,83 @@ def observe(case):
     for f in mon.POINT_FIELDS:
         h.update(np.ascontiguousarray(np.array(getattr(res, f), dtype=float)).tobytes())
     return ['ok', len(res), h.hexdigest(), _meta_key(read_meta(res))]
+
+
+# ------------------------------------------------------------------ stand-alone replay (AEIC API only)
+
+_ASSERT = {
+    'fuel-increases': "assert np.all(np.diff(traj.fuel_mass) <= 0), 'fuel mass increases'",
+    'mass-increases': "assert np.all(np.diff(traj.aircraft_mass) <= 0), 'aircraft mass increases'",
+    'time-decreases': "assert np.all(np.diff(traj.flight_time) >= 0), 'flight time decreases'",
+    'distance-decreases': "assert np.all(np.diff(traj.ground_distance) >= 0), 'ground distance decreases'",
+    'first-point': "assert traj.aircraft_mass[0] == traj.starting_mass and traj.fuel_mass[0] == traj.total_fuel_mass",
+    'altitude-end': "assert abs(traj.altitude[-1] - (mission.destination_position.altitude + 914.4)) < 1e-6, traj.altitude[-1]",
+    'resample-own': (
+        "t = traj.flight_time; r = traj.interpolate_time(t)\n"
+        "    once = np.r_[True, np.diff(t) > 0] & np.r_[np.diff(t) > 0, True]  # points with a time stamp of their own\n"
+        "    assert np.allclose(r.fuel_mass[once], traj.fuel_mass[once], rtol=1e-12, atol=0, equal_nan=False)"
+    ),
+    'resample-mid': (
+        "t = traj.flight_time; i = np.flatnonzero(np.diff(t) > 0); tm = (t[i] + t[i + 1]) / 2\n"
+        "    r = traj.interpolate_time(tm)\n"
+        "    assert np.allclose(r.ground_distance, (traj.ground_distance[i] + traj.ground_distance[i + 1]) / 2, rtol=1e-9, atol=0)"
+    ),
+}
+
+
+def replay_test_source(v):
+    """A pytest file that repeats the failing flight with AEIC API calls only (it fails while the
+    defect is present).  None -> the runner writes its generic `./check --replay` wrapper."""
+    import json
+
+    kind, case = v['kind'], v['case']
+    if kind not in _ASSERT or case['table'] not in ('sample', 'legacy'):
+        return None
+    o, d = route_codes(case['route'], case['oe'], case['de'])
+    fr = [f'1 / {s}' if isinstance(s, int) else f'{s[0]} / {s[1]}' for s in case['steps']]
+    if case['iter'] == 'off':
+        opts = 'tb.Options(iterate_mass=False)'
+    else:
+        opts = f'tb.Options(iterate_mass=True, max_mass_iters={int(case["iter"][0])}, mass_iter_reltol={float(case["iter"][1])!r})'
+    table = (
+        "REPO / 'src' / 'AEIC' / 'data' / 'performance' / 'sample_performance_model.toml'" if case['table'] == 'sample'
+        else "REPO / 'tests' / 'data' / 'legacy_verification' / 'legacy_verification.toml'"
+    )  # fmt: skip
+    mass = {'computed': None, 'min': 'min(pm.performance_table.mass)', 'max': 'max(pm.performance_table.mass)',
+            'mid': '0.5 * (min(pm.performance_table.mass) + max(pm.performance_table.mass))',
+            'above-max': '1.05 * max(pm.performance_table.mass)'}[case['mass']]  # fmt: skip
+    fly = 'builder.fly(pm, mission)' if mass is None else f'builder.fly(pm, mission, starting_mass={mass})'
+    return f"""# Replays one recorded C02 violation ({kind}) with AEIC API calls only.
+# case: {json.dumps(case, sort_keys=True)}
+import os
+from pathlib import Path
+
+import numpy as np
+
+REPO = Path(os.environ.get('VERIF_REPO') or '/repo')
+os.environ.setdefault('AEIC_PATH', str(REPO / 'tests' / 'data'))
+
+
+def test_replay():
+    from AEIC.config import Config
+
+    Config.reset()
+    Config.load(data_path_overrides=[Path('{_csv_path().parent.parent}'), REPO / 'tests' / 'data'])
+    import AEIC.trajectories.builders as tb
+    import AEIC.utils.airports as ap
+    from AEIC.missions import Mission
+    from AEIC.missions.mission import iso_to_timestamp
+    from AEIC.performance.models import PerformanceModel
+
+    ap._airports = None
+    pm = PerformanceModel.load({table})
+    mission = Mission(origin='{o}', destination='{d}', departure=iso_to_timestamp('2024-09-01T12:00:00'),
+                      arrival=iso_to_timestamp('2024-09-01T18:00:00'), load_factor={float(case['lf'])!r}, aircraft_type='738')
+    builder = tb.LegacyBuilder(options={opts}, legacy_options=tb.LegacyOptions(
+        frac_step_clm={fr[0]}, frac_step_crz={fr[1]}, frac_step_des={fr[2]}))
+    traj = {fly}
+    {_ASSERT[kind]}
+"""
 
 
 if __name__ == '__main__':
